@@ -481,4 +481,264 @@ Proof.
     eexists. rewrite C4, E2, C3, E1, C2, Enn, Z.eqb_refl. split; reflexivity.
   - intros m. rewrite M4, M3, M2. reflexivity.
 Qed.
+
+(* ---- AppendNode ------------------------------------------------------------------------------- *)
+Lemma append_chain h h' ns n : forall l prev,
+  chain h ns prev l -> NoDup l -> n <> 0 ->
+  (forall a c, In a l -> cell_at h a = Some c ->
+               cell_at h' a = Some (if a =? last l prev then with_after C c n else c)) ->
+  (exists cn, cell_at h' n = Some cn /\ c_list C cn = ns /\ c_before C cn = last l prev /\ c_after C cn = 0) ->
+  chain h' ns prev (l ++ [n]).
+Proof.
+  induction l as [|x l' IH]; intros prev H N Nn S (cn & Hcn & A1 & A2 & A3).
+  - cbn [app last] in *. split; [exact Nn|]. exists cn. auto.
+  - cbn [app] in *. destruct H as (Nx & cx & Hcx & X1 & X2 & X3 & X4).
+    apply NoDup_cons_iff in N. destruct N as [Nx' N'].
+    assert (Elast : last (x :: l') prev = last l' x) by apply last_cons_default.
+    rewrite Elast in S, A2.
+    assert (IH' : chain h' ns x (l' ++ [n])).
+    { apply IH; try assumption.
+      - intros a c Ha Hc. apply S; [right; exact Ha|exact Hc].
+      - exists cn. auto. }
+    split; [exact Nx|].
+    destruct l' as [|z l''].
+    + cbn [last app] in *. exists (with_after C cx n). split.
+      { rewrite (S x cx (or_introl eq_refl) Hcx). rewrite Z.eqb_refl. reflexivity. }
+      split; [exact X1|]. split; [exact X2|]. split; [reflexivity|exact IH'].
+    + exists cx. split.
+      { rewrite (S x cx (or_introl eq_refl) Hcx).
+        assert (E : x =? last (z :: l'') x = false).
+        { apply Z.eqb_neq. intros E. apply Nx'. rewrite E at 1. apply last_in. discriminate. }
+        rewrite E. reflexivity. }
+      split; [exact X1|]. split; [exact X2|]. split; [exact X3|exact IH'].
+Qed.
+
+(* AppendNode of a node that is not in the list and whose before/after are nil
+   (a freshly allocated node, or one that was detached) is the functional append *)
+Theorem append_node_refines h ns l n c :
+  repr h ns l -> n <> 0 -> ~ In n l ->
+  cell_at h n = Some c -> c_before C c = 0 -> c_after C c = 0 ->
+  exists h', append_node C h ns n = Ok h' /\ repr h' ns (l ++ [n]) /\
+             (forall a, ~ In a l -> a <> n -> cell_at h' a = cell_at h a) /\
+             (forall m, m <> ns -> nodes_at h' m = nodes_at h m).
+Proof.
+  intros (N0 & Nd & Hn & Hc) Nn Nin Hcn B A.
+  pose proof (chain_nonzero _ _ _ _ Hc) as NZ.
+  unfold append_node. rewrite (get_nodes_ok _ _ _ Hn). cbn [bind n_last n_first].
+  destruct l as [|x r].
+  - cbn [last hd]. rewrite Z.eqb_refl. cbn [bind].
+    rewrite (get_cell_ok _ _ _ Hcn). cbn [bind n_first].
+    eexists. split; [reflexivity|]. split; [|split].
+    + split; [exact N0|]. split; [repeat constructor; intros []|]. split.
+      * rewrite nodes_at_set, Z.eqb_refl. reflexivity.
+      * cbn [app chain]. split; [exact Nn|]. eexists. rewrite cell_at_set_nodes, cell_at_set, Z.eqb_refl.
+        split; [reflexivity|]. cbn. auto.
+    + intros a _ Ha. rewrite cell_at_set_nodes, cell_at_set.
+      assert (n =? a = false) by (apply Z.eqb_neq; congruence). rewrite H. reflexivity.
+    + intros m Hm. rewrite nodes_at_set. assert (ns =? m = false) by (apply Z.eqb_neq; congruence).
+      rewrite H. reflexivity.
+  - set (l := x :: r) in *. set (lst := last l 0).
+    assert (Hlst : In lst l) by (apply last_in; discriminate).
+    assert (Nlst : lst <> 0) by (intros E; apply NZ; rewrite <- E; exact Hlst).
+    assert (Elst : lst =? 0 = false) by (apply Z.eqb_neq; exact Nlst). rewrite Elst.
+    rewrite (get_cell_ok _ _ _ Hcn). cbn [bind].
+    destruct (chain_cell _ _ _ _ _ Hc Hlst) as (cl & Hcl & _).
+    assert (Nln : n =? lst = false) by (apply Z.eqb_neq; intros E; apply Nin; rewrite E; exact Hlst).
+    assert (Hcl' : cell_at (set_cell C h n (with_before C c lst)) lst = Some cl).
+    { rewrite cell_at_set, Nln. exact Hcl. }
+    rewrite (get_cell_ok _ _ _ Hcl'). cbn [bind].
+    set (h1 := set_cell C (set_cell C h n (with_before C c lst)) lst (with_after C cl n)).
+    assert (Hc1 : cell_at h1 n = Some (with_before C c lst)).
+    { unfold h1. rewrite !cell_at_set. assert (lst =? n = false) by (rewrite Z.eqb_sym; exact Nln).
+      rewrite H, Z.eqb_refl. reflexivity. }
+    rewrite (get_cell_ok _ _ _ Hc1). cbn [bind n_first].
+    assert (Efirst : hd 0 l =? 0 = false).
+    { apply Z.eqb_neq. intros E. apply NZ. rewrite <- E. left. reflexivity. }
+    rewrite Efirst. eexists. split; [reflexivity|]. split; [|split].
+    + split; [exact N0|]. split; [apply NoDup_app_comm_one; assumption|]. split.
+      * rewrite nodes_at_set, Z.eqb_refl. f_equal. rewrite last_app_cons. reflexivity.
+      * apply (append_chain h _ ns n l 0 Hc Nd Nn).
+        -- intros a c0 Ha Hc0. rewrite cell_at_set_nodes, cell_at_set.
+           assert (n =? a = false) by (apply Z.eqb_neq; intros <-; contradiction).
+           rewrite H. unfold h1. rewrite !cell_at_set, H. fold lst.
+           destruct (Z.eqb_spec lst a) as [<-|Hne].
+           ++ rewrite Z.eqb_refl. rewrite Hcl in Hc0. inversion Hc0. reflexivity.
+           ++ assert (a =? lst = false) by (apply Z.eqb_neq; congruence). rewrite H0. exact Hc0.
+        -- eexists. rewrite cell_at_set_nodes, cell_at_set, Z.eqb_refl. split; [reflexivity|].
+           cbn. fold lst. auto.
+    + intros a Ha Han. rewrite cell_at_set_nodes, cell_at_set.
+      assert (n =? a = false) by (apply Z.eqb_neq; congruence). rewrite H.
+      unfold h1. rewrite !cell_at_set, H.
+      assert (lst =? a = false) by (apply Z.eqb_neq; intros <-; contradiction). rewrite H0. reflexivity.
+    + intros m Hm. rewrite nodes_at_set. assert (ns =? m = false) by (apply Z.eqb_neq; congruence).
+      rewrite H. reflexivity.
+Qed.
+
+(* ---- InsertNode --------------------------------------------------------------------------------- *)
+Lemma insert_chain h h' ns pos n l2 : forall l1 prev,
+  l1 <> [] ->
+  chain h ns prev (l1 ++ pos :: l2) -> NoDup (l1 ++ pos :: l2) -> n <> 0 ->
+  (forall a c, In a (l1 ++ pos :: l2) -> cell_at h a = Some c ->
+               cell_at h' a = Some (if a =? last l1 prev then with_after C c n
+                                    else if a =? pos then with_before C c n else c)) ->
+  (exists cn, cell_at h' n = Some cn /\ c_list C cn = ns /\ c_before C cn = last l1 prev /\ c_after C cn = pos) ->
+  chain h' ns prev (l1 ++ n :: pos :: l2).
+Proof.
+  induction l1 as [|x l1' IH]; intros prev Hne H N Nn S (cn & Hcn & A1 & A2 & A3); [congruence|].
+  cbn [app] in *. destruct H as (Nx & cx & Hcx & X1 & X2 & X3 & X4).
+  apply NoDup_cons_iff in N. destruct N as [Nx' N'].
+  assert (Elast : last (x :: l1') prev = last l1' x) by apply last_cons_default.
+  rewrite Elast in S, A2.
+  split; [exact Nx|].
+  destruct l1' as [|z l1''].
+  - cbn [last app] in *.
+    destruct X4 as (Np & cp & Hcp & P1 & P2 & P3 & P4).
+    apply NoDup_cons_iff in N'. destruct N' as [Np' N''].
+    assert (Epx : pos =? x = false).
+    { apply Z.eqb_neq. intros E. apply Nx'. left. exact E. }
+    exists (with_after C cx n). split.
+    { rewrite (S x cx (or_introl eq_refl) Hcx), Z.eqb_refl. reflexivity. }
+    split; [exact X1|]. split; [exact X2|]. split; [reflexivity|].
+    split; [exact Nn|]. exists cn. split; [exact Hcn|]. split; [exact A1|]. split; [exact A2|]. split; [exact A3|].
+    split; [exact Np|]. exists (with_before C cp n). split.
+    { rewrite (S pos cp (or_intror (or_introl eq_refl)) Hcp), Epx, Z.eqb_refl. reflexivity. }
+    split; [exact P1|]. split; [reflexivity|]. split; [exact P3|].
+    apply (chain_same h); [|exact P4].
+    intros a Ha. destruct (chain_cell _ _ _ _ _ P4 Ha) as (ca & Hca & _).
+    rewrite (S a ca (or_intror (or_intror Ha)) Hca).
+    assert (E1 : a =? x = false).
+    { apply Z.eqb_neq. intros ->. apply Nx'. right. exact Ha. }
+    assert (E2 : a =? pos = false).
+    { apply Z.eqb_neq. intros ->. apply Np'. exact Ha. }
+    rewrite E1, E2. symmetry. exact Hca.
+  - assert (IH' : chain h' ns x ((z :: l1'') ++ n :: pos :: l2)).
+    { apply IH; try assumption; [discriminate| |exists cn; auto].
+      intros a c Ha Hc. apply S; [right; exact Ha|exact Hc]. }
+    exists cx. split.
+    { rewrite (S x cx (or_introl eq_refl) Hcx).
+      assert (E : x =? last (z :: l1'') x = false).
+      { apply Z.eqb_neq. intros E. apply Nx'. apply in_or_app. left. rewrite E at 1. apply last_in. discriminate. }
+      assert (E2 : x =? pos = false).
+      { apply Z.eqb_neq. intros E2. apply Nx'. apply in_or_app. right. left. symmetry. exact E2. }
+      rewrite E, E2. reflexivity. }
+    split; [exact X1|]. split; [exact X2|]. split; [exact X3|exact IH'].
+Qed.
+
+(* InsertNode before a member that is NOT the first node is the functional insert *)
+Theorem insert_node_refines h ns l1 pos l2 n c :
+  repr h ns (l1 ++ pos :: l2) -> l1 <> [] ->
+  n <> 0 -> ~ In n (l1 ++ pos :: l2) -> cell_at h n = Some c ->
+  exists h', insert_node C h ns pos n = Ok h' /\ repr h' ns (l1 ++ n :: pos :: l2) /\
+             (forall m, nodes_at h' m = nodes_at h m).
+Proof.
+  intros (N0 & Nd & Hn & Hc) Hl1 Nn Nin Hcn.
+  destruct (chain_mid _ _ _ _ _ _ Hc) as (cp & Hcp & L & B & A & Np).
+  pose proof (chain_nonzero _ _ _ _ Hc) as NZ.
+  destruct (NoDup_mid_notin _ _ _ Nd) as [Np1 Np2].
+  set (bef := last l1 0) in *.
+  assert (Hbef : In bef l1) by (apply last_in; exact Hl1).
+  assert (Nbef : bef <> 0).
+  { intros E. apply NZ. rewrite <- E. apply in_or_app. left. exact Hbef. }
+  destruct (chain_cell _ _ _ _ bef Hc) as (cb & Hcb & _); [apply in_or_app; left; exact Hbef|].
+  unfold insert_node. rewrite (get_cell_ok _ _ _ Hcn). cbn [bind].
+  assert (Ep : pos =? 0 = false) by (apply Z.eqb_neq; exact Np). rewrite Ep.
+  rewrite (get_cell_ok _ _ _ Hcp). cbn [bind]. rewrite B.
+  rewrite (get_cell_ok _ _ _ Hcb). cbn [bind].
+  assert (Enb : n =? bef = false).
+  { apply Z.eqb_neq. intros E. apply Nin. rewrite E. apply in_or_app. left. exact Hbef. }
+  assert (Enp : n =? pos = false).
+  { apply Z.eqb_neq. intros E. apply Nin. rewrite E. apply in_or_app. right. left. reflexivity. }
+  assert (Ebp : bef =? pos = false).
+  { apply Z.eqb_neq. intros E. apply Np1. rewrite <- E. exact Hbef. }
+  set (h2 := set_cell C (set_cell C h bef (with_after C cb n)) n (mkCell C (c_content C c) ns bef pos)).
+  assert (Hcp2 : cell_at h2 pos = Some cp).
+  { unfold h2. rewrite !cell_at_set, Enp, Ebp. exact Hcp. }
+  rewrite (get_cell_ok _ _ _ Hcp2). cbn [bind].
+  eexists. split; [reflexivity|]. split; [|intros m; reflexivity].
+  split; [exact N0|]. split.
+  { change (l1 ++ n :: pos :: l2) with (l1 ++ [n] ++ pos :: l2). rewrite app_assoc.
+    assert (N1 : NoDup ((l1 ++ [n]) ++ pos :: l2)).
+    { rewrite <- app_assoc. cbn [app]. apply NoDup_Add with (a := n) (l := l1 ++ pos :: l2).
+      - apply Add_app.
+      - split; assumption. }
+    exact N1. }
+  split.
+  - unfold h2. rewrite !nodes_at_set_cell. rewrite Hn. f_equal.
+    rewrite !hd_app_nonnil by assumption. rewrite !last_app_cons. reflexivity.
+  - apply (insert_chain h _ ns pos n l2 l1 0 Hl1 Hc Nd Nn).
+    + intros a c0 Ha Hc0. fold bef. rewrite cell_at_set. unfold h2. rewrite !cell_at_set.
+      assert (Ena : n =? a = false) by (apply Z.eqb_neq; intros <-; contradiction). rewrite Ena.
+      destruct (Z.eqb_spec pos a) as [<-|Hpa].
+      * assert (pos =? bef = false) by (rewrite Z.eqb_sym; exact Ebp). rewrite H, Z.eqb_refl.
+        rewrite Hcp in Hc0. inversion Hc0. reflexivity.
+      * destruct (Z.eqb_spec bef a) as [<-|Hba].
+        -- rewrite Z.eqb_refl. rewrite Hcb in Hc0. inversion Hc0. reflexivity.
+        -- assert (a =? bef = false) by (apply Z.eqb_neq; congruence).
+           assert (a =? pos = false) by (apply Z.eqb_neq; congruence).
+           rewrite H, H0. exact Hc0.
+    + eexists. rewrite cell_at_set. unfold h2. rewrite !cell_at_set.
+      assert (pos =? n = false) by (rewrite Z.eqb_sym; exact Enp). rewrite H, Z.eqb_refl.
+      split; [reflexivity|]. cbn. fold bef. auto.
+Qed.
+(* ---- nodeSet.List ------------------------------------------------------------------------------ *)
+(* whichever member the map iteration yields first, its `list` pointer leads to
+   the owning header, and the walk filtered by membership is Tree.set_list *)
+Theorem nodeset_list_refines h ns l set m :
+  repr h ns l -> In m set -> (forall a, In a set -> In a l) ->
+  nodeset_list C (S (length l)) h (m :: set) = Ok (filter (fun a => mem a (m :: set)) l).
+Proof.
+  intros (N0 & Nd & Hn & Hc) Hm Hsub.
+  destruct (chain_cell _ _ _ _ m Hc (Hsub m Hm)) as (c & Hcm & L).
+  unfold nodeset_list. rewrite (get_cell_ok _ _ _ Hcm). cbn [bind]. rewrite L.
+  rewrite (get_nodes_ok _ _ _ Hn). cbn [bind n_first].
+  rewrite (walk_refines h ns 0 l Hc). reflexivity.
+Qed.
 End L1Proofs.
+
+(* ======================================================================== *)
+(* outside the preconditions: witnesses on a concrete heap                  *)
+(* ======================================================================== *)
+(* list header 100 owning the nodes 1 -> 2 -> 3 with contents 10, 20, 30 *)
+Definition heap123 : heap Z :=
+  mkHeap Z [ (1, mkCell Z 10 100 0 2); (2, mkCell Z 20 100 1 3); (3, mkCell Z 30 100 2 0) ]
+           [ (100, mkNodes 1 3) ] 4.
+
+Lemma heap123_repr : repr Z heap123 100 [1; 2; 3].
+Proof.
+  split; [discriminate|]. split; [repeat constructor; simpl; intuition lia|]. split; [reflexivity|].
+  simpl. repeat (split; [lia|eexists; split; [reflexivity|]; repeat (split; [reflexivity|])]). exact I.
+Qed.
+
+(* ReplaceWith on the FIRST node: no panic, but `first` still points at the old,
+   now detached node, so walking the list (BuildTokens) yields that node only:
+   the new node and the rest of the list are unreachable. *)
+Theorem replace_first_corrupts :
+  exists nn h', replace_with1 Z heap123 1 11 = Ok (nn, h') /\
+    walk Z 10 h' (match nodes_at Z h' 100 with Some hd_ => n_first hd_ | None => 0 end) = Some [1] /\
+    ~ repr Z h' 100 [nn; 2; 3].
+Proof.
+  eexists. eexists. split; [vm_compute; reflexivity|]. split; [vm_compute; reflexivity|].
+  intros (_ & _ & H & _). vm_compute in H. discriminate H.
+Qed.
+
+(* ReplaceWith on the LAST node: the walk is right but `last` is stale, so a
+   following AppendNode links the new node behind the detached one: it is lost. *)
+Theorem replace_last_corrupts :
+  exists nn h' h'', replace_with1 Z heap123 3 33 = Ok (nn, h') /\
+    walk Z 10 h' 1 = Some [1; 2; nn] /\
+    append Z h' 100 44 = Ok (5, h'') /\
+    walk Z 10 h'' 1 = Some [1; 2; nn].
+Proof.
+  eexists. eexists. eexists. split; [vm_compute; reflexivity|]. split; [vm_compute; reflexivity|].
+  split; vm_compute; reflexivity.
+Qed.
+
+(* InsertNode before the first node dereferences pos.before == nil *)
+Theorem insert_before_first_panics :
+  insert Z heap123 100 1 5 = Panic.
+Proof. vm_compute. reflexivity. Qed.
+
+(* in the middle all is well (instances of the refinement theorems) *)
+Example replace_middle_ok :
+  exists h', replace_with1 Z heap123 2 22 = Ok (4, h') /\ walk Z 10 h' 1 = Some [1; 4; 3].
+Proof. eexists. split; vm_compute; reflexivity. Qed.
